@@ -12,6 +12,7 @@
      virtual root: a node without data (log_p = log_prior everywhere)               -> [root_R]
    Definitions only; proofs are in Proofs/Marginal*.v. *)
 From PV Require Export Base.Dist.
+From Coq Require Export Permutation.
 
 (* ---- rose trees with an arbitrary payload; shape-only notions shared with the MAP model (C10) ---- *)
 Inductive tree (A : Type) : Type := Node : A -> list (tree A) -> tree A.
@@ -132,6 +133,10 @@ Definition brute_root (G : nat) (f : list dtree) (k : nat) : Qc :=
 (* data positivity (all likelihood values on the grid are > 0, i.e. all logs are finite) *)
 Definition pos_data (G : nat) (t : dtree) : Prop :=
   forall ds, In ds (payloads t) -> forall d, In d ds -> forall i, (i < G)%nat -> 0 < vget d i.
+
+(* same tree up to the order of siblings at every depth *)
+Inductive tperm {A : Type} : tree A -> tree A -> Prop :=
+| tperm_node a ks ks' ks'' : Forall2 tperm ks ks' -> Permutation ks' ks'' -> tperm (Node a ks) (Node a ks'').
 
 (* ---- the recursion with an arbitrary two-argument convolution operator (used to state that raising
         convolution entries, as the 1e-100 floor does, can only raise every R entry) ---- *)
